@@ -1133,7 +1133,7 @@ def gzip_request_decoding_is_bounded(plain: bytes, wire: int, cap: int, pend: in
 @cond(q=60, t=300, stubs=_STUBS[1:] + c18._STUB_TEXT[1:],
       encoded=[mwm._MaxRequestBytesMiddleware.process_request, mwm._CompressionMiddleware.process_request, cod.decompress, cod._decompress_body_zstd, cod._zstd_content_size],
       bound=f"zstd frame of any wire size 0..{_ND + 2} decoding to any n<={_ND} bytes, cap 0..{_ND + 2}, declared size n|-1|2**64-1|a lie 0..255, short-read quantum 1..{c18._CHUNK + 1}, chunk {c18._CHUNK}",
-      replay=lambda a: _replay_decoder("zstd", a), signature=lambda a, c: "C17:zstd-decoder-materialises-beyond-cap")
+      replay=lambda a: _replay_decoder("zstd", a), signature=lambda a, c: "C17:zstd-lying-content-size" if a.get("size_mode") == 3 else "C17:zstd-decoder-materialises-beyond-cap")
 def zstd_request_decoding_is_bounded(plain: bytes, wire: int, cap: int, size_mode: int, lie: int, quantum: int) -> bool:
     """
     pre: len(plain) <= _ND and 0 <= wire <= _ND + 2 and 0 <= cap <= _ND + 2 and 0 <= size_mode <= 3 and 0 <= lie <= 255 and lie != len(plain) and 1 <= quantum <= c18._CHUNK + 1
